@@ -365,6 +365,9 @@ func (r *renderer) hole(h *SHole) string {
 	if h.Verb == "q" {
 		return strconv.Quote(s)
 	}
+	if h.Verb == "c" && isIntType(h.Typ) {
+		return string(rune('a' + r.innerIter()%26))
+	}
 	return s
 }
 
